@@ -167,9 +167,16 @@ def _worker(args: T.Tuple[str, int, int, int, int, T.List[str]]) -> T.Dict[str, 
                 if j % 11 == 0 and text.endswith('\n'):
                     text = text[:-1]
                 for c in range(ncfg):
-                    case = format_case(f'gen:{j}:{c}', text, random_config(rnd), tmp, mods, alpha, with_cli=(j % 4 == 0))
+                    cfg = random_config(rnd)
+                    case = format_case(f'gen:{j}:{c}', text, cfg, tmp, mods, alpha, with_cli=(j % 4 == 0))
                     if case:
                         cases.append(case)
+                        # boundary inputs for the check flags: a formatter fixed point, and the same text without its final newline
+                        if j % 4 == 0 and c == 0 and case.get('out') and case.get('again') and case['out'].endswith('\n'):
+                            for tag, t2 in (('fix', case['out']), ('fixnonl', case['out'][:-1])):
+                                c2 = format_case(f'gen:{j}:{c}:{tag}', t2, cfg, tmp, mods, alpha, with_cli=True)
+                                if c2:
+                                    cases.append(c2)
         else:
             for fi, fn in enumerate(files):
                 try:
